@@ -214,8 +214,35 @@ func main() {
 		r := strings.SplitN(strings.TrimPrefix(w.Name, "synthetic:"), "+", 2)[0]
 		synBy[r] = append(synBy[r], w)
 	}
-	// sequential reference, computed twice (the operations must be deterministic to be comparable)
 	noYield := func() {}
+	// cold start: the FIRST use in this process of every definition, pattern and cache happens from many
+	// goroutines at once (lazily initialised shared state races only before it is warm); the results are
+	// compared with the sequential reference computed afterwards.
+	cold := map[string][]string{}
+	{
+		var cwg sync.WaitGroup
+		var cmu sync.Mutex
+		cstart := make(chan struct{})
+		runtime.GOMAXPROCS(16)
+		coldSet := append([]*work{}, examples...)
+		rng.Shuffle(len(coldSet), func(i, j int) { coldSet[i], coldSet[j] = coldSet[j], coldSet[i] })
+		for _, w := range coldSet {
+			for rep := 0; rep < 2; rep++ {
+				cwg.Add(1)
+				go func(w *work) {
+					defer cwg.Done()
+					<-cstart
+					got := observe(w, runtime.Gosched)
+					cmu.Lock()
+					cold[w.Name] = append(cold[w.Name], got)
+					cmu.Unlock()
+				}(w)
+			}
+		}
+		close(cstart)
+		cwg.Wait()
+	}
+	// sequential reference, computed twice (the operations must be deterministic to be comparable)
 	ref := map[string]string{}
 	bad := map[string]bool{}
 	nondet := 0
@@ -239,6 +266,23 @@ func main() {
 	deadline := time.Now().Add(time.Duration(budget * float64(time.Second)))
 	procs := []int{1, 2, 4, 16}
 	ops, diffs, rounds := 0, 0, 0
+	coldOps := 0
+	for _, w := range examples {
+		if !reference(w) {
+			continue
+		}
+		for _, got := range cold[w.Name] {
+			coldOps++
+			if got != ref[w.Name] {
+				diffs++
+				if diffs <= 5 {
+					emit(map[string]interface{}{"type": "diff", "workload": w.Name, "gomaxprocs": 16, "phase": "cold-start",
+						"sequential": ref[w.Name], "concurrent": got, "data": string(w.data)})
+				}
+			}
+		}
+	}
+	ops += coldOps
 	perProcs := map[string]int{}
 	regimesUsed := map[string]bool{}
 	for time.Now().Before(deadline) {
@@ -309,5 +353,5 @@ func main() {
 	}
 	sort.Strings(ru)
 	emit(map[string]interface{}{"type": "totals", "operations": ops, "rounds": rounds, "differences": diffs, "workloads": len(ref),
-		"nondeterministic_excluded": nondet, "per_gomaxprocs": perProcs, "regimes": ru})
+		"nondeterministic_excluded": nondet, "cold_start_operations": coldOps, "per_gomaxprocs": perProcs, "regimes": ru})
 }
